@@ -23,6 +23,7 @@ fn run_check(id: &str, tier: Tier) -> Option<Report> {
         "C02" => checks::c02::run(tier),
         "C03" => checks::c03::run(tier),
         "C04" => checks::c04::run(tier),
+        "C05" => checks::c05::run(tier),
         "C06" => checks::c06::run(tier),
         "C07" => checks::c07::run(tier),
         "C08" => checks::c08::run(tier),
@@ -45,6 +46,7 @@ fn replay_case(id: &str, case: &Value) -> Option<Vec<Failure>> {
         "C02" => checks::c02::replay(case),
         "C03" => checks::c03::replay(case),
         "C04" => checks::c04::replay(case),
+        "C05" => checks::c05::replay(case),
         "C06" => checks::c06::replay(case),
         "C07" => checks::c07::replay(case),
         "C08" => checks::c08::replay(case),
